@@ -1,4 +1,6 @@
 import RsslVerif.Lemmas.Layout
+import RsslVerif.Lemmas.LayoutCollect
+import RsslVerif.Gen.LayoutSites
 /-!
 # C19 — layout-consistency validation is sound
 
@@ -114,6 +116,133 @@ theorem check_total (t : Ty) (hw : wf t = true) (hh : size .hlsl t ≤ u32Max)
     the same layout -/
 theorem vector_free_agree (t : Ty) (hv : vectorFree t = true) : Agree t :=
   ⟨(vectorFree_same t hv).2.1, (vectorFree_same t hv).2.2⟩
+
+/-! ## Which uses of a type are validated (the collection loops of `check_layout`) -/
+section collection
+open RsslVerif.Gen.LayoutSites RsslVerif.Model.LayoutCollect RsslVerif.Lemmas.LayoutCollect
+
+/-- "structured buffer", in the property's words -/
+def propertyObjects : List String := ["StructuredBuffer", "RWStructuredBuffer"]
+/-- "raw buffer / buffer address" -/
+def rawBufferObjects : List String := ["ByteAddressBuffer", "RWByteAddressBuffer", "BufferAddress", "RWBufferAddress"]
+
+/-- **Inventory of use sites.**  Taken from the type checker's own tables (`ObjectType`, `parse_object_type`,
+    the method tables of `get_methods`), not from `layout_checker.rs`: every object type whose element may be a
+    structure is a structured buffer (and then matched by `check_layout`) or one of the two kinds the property
+    does not name; every object method templated on a type `T` is a load / store of a raw buffer or buffer
+    address and its intrinsic is matched by `check_layout`; nothing else is matched; the loops look below
+    modifiers, de-duplicate by type id and take the single type argument. -/
+theorem collection_sites_covered :
+    (∀ o ∈ structElementObjects, o ∈ propertyObjects ∨ o ∈ ["ConstantBuffer", "TriangleStream"]) ∧
+    (∀ o ∈ propertyObjects, o ∈ checkedObjects ∧ (o, true) ∈ objectTypes ∧ o ∈ structElementObjects) ∧
+    (∀ t ∈ typedMethods, t.1 ∈ rawBufferObjects ∧ t.2.2.1 ∈ checkedIntrinsics) ∧
+    (∀ o ∈ rawBufferObjects, (o, false) ∈ objectTypes ∧ ∃ t ∈ typedMethods, t.1 = o) ∧
+    (∀ i ∈ checkedIntrinsics, ∃ t ∈ typedMethods, t.2.2.1 = i) ∧
+    (∀ o ∈ checkedObjects, o ∈ propertyObjects) ∧
+    globalLoopStripsModifier = true ∧ dedupByTypeId = true ∧ fnLoopOneTypeArgument = true := by
+  decide
+
+/-- a use of the type `r` that the property names: the element type of a global (RW)StructuredBuffer (below any
+    modifiers), or the type argument of an instantiated typed load / store of a raw buffer or buffer address -/
+inductive PropertyUse (m : Module) (r : TyRef) : Prop
+  | buffer (g : Global) (hg : g ∈ m.globals) (k : String) (hk : k ∈ propertyObjects)
+      (h : removeModifier g.ty = .object k (some r))
+  | access (f : Fn) (hf : f ∈ m.fns) (t : String × String × String × Nat) (ht : t ∈ typedMethods)
+      (hi : f.intrinsic = some t.2.2.1) (ha : f.template = some [.type r])
+
+/-- the type reference is matched by one of the two loops -/
+def Matched (m : Module) (r : TyRef) : Prop :=
+  (∃ g ∈ m.globals, GlobalHit g r) ∨ (∃ f ∈ m.fns, FnHit f r)
+
+/-- a type id denotes one type (the type registry interns types) -/
+def Consistent (m : Module) : Prop :=
+  ∀ r r', Matched m r → Matched m r' → r.id = r'.id → r.ty = r'.ty
+
+theorem propertyUse_matched (m : Module) (r : TyRef) (h : PropertyUse m r) : Matched m r := by
+  cases h with
+  | buffer g hg k hk h =>
+    refine Or.inl ⟨g, hg, k, h, ?_⟩
+    have := (collection_sites_covered.2.1 k hk).1
+    simpa using this
+  | access f hf t ht hi ha =>
+    refine Or.inr ⟨f, hf, t.2.2.1, hi, ?_, ha⟩
+    have := (collection_sites_covered.2.2.1 t ht).2
+    simpa using this
+
+/-- **Every use the property names is collected**: its type id is among `types_to_check`. -/
+theorem property_uses_collected (m : Module) (l : List Entry) (h : collect m = .ok l) (r : TyRef)
+    (hu : PropertyUse m r) : ∃ e ∈ l, e.ref.id = r.id := by
+  rcases propertyUse_matched m r hu with ⟨g, hg, hh⟩ | ⟨f, hf, hh⟩
+  · exact collect_global m l h g hg r hh
+  · exact collect_fn m l h f hf r hh
+
+/-- **Soundness of `check_layout` as a whole.**  If it accepts a module, every structure used as the element
+    type of a structured buffer or of a typed raw-buffer / buffer-address load or store has the same total size
+    and the same byte offset of every field, recursively, under both reference calculators. -/
+theorem check_layout_sound (m : Module) (hc : Consistent m) (h : checkLayout m = .ok) (r : TyRef)
+    (hu : PropertyUse m r) (hw : wf r.ty = true) :
+    ∃ rh rm, hlslSB r.ty = some rh ∧ metal r.ty = some rm ∧ rh.size = rm.size ∧ rh.fields = rm.fields := by
+  unfold checkLayout at h
+  split at h
+  · rename_i l hl
+    obtain ⟨e, he, hid⟩ := property_uses_collected m l hl r hu
+    have hm : Matched m e.ref := collect_origin m l hl e he
+    have hty : e.ref.ty = r.ty := hc e.ref r hm (propertyUse_matched m r hu) hid
+    exact check_sound _ h r.ty (by rw [← hty]; exact List.mem_map.2 ⟨e, he, rfl⟩) hw
+  · cases h
+  · cases h
+
+/-- **Reported sizes, module level**: a rejection blames a collected type, i.e. one the loops matched, and
+    the sizes and alignments in the message are the reference ones. -/
+theorem check_layout_reports_true_sizes (m : Module) (i : Nat) (lh lm : Layout)
+    (h : checkLayout m = .mismatch i lh lm) :
+    ∃ r, Matched m r ∧ (wf r.ty = true →
+      hlslSB r.ty = some ⟨lh.size, lh.align, fieldsAt .hlsl r.ty 0⟩ ∧
+      metal r.ty = some ⟨lm.size, lm.align, fieldsAt .metal r.ty 0⟩) := by
+  unfold checkLayout at h
+  split at h
+  · rename_i l hl
+    obtain ⟨t, ht, hs⟩ := reported_sizes_true _ i lh lm h
+    rw [List.getElem?_map] at ht
+    cases hq : l[i]? with
+    | none => rw [hq] at ht; cases ht
+    | some e =>
+      rw [hq] at ht
+      simp only [Option.map_some, Option.some.injEq] at ht
+      refine ⟨e.ref, collect_origin m l hl e (List.mem_of_getElem? hq), fun hw => ?_⟩
+      rw [ht]
+      have := hs (by rw [← ht]; exact hw)
+      exact ⟨this.2.2.1, this.2.2.2⟩
+  · cases h
+  · cases h
+
+private def sF : Ty := .struct (Tys.ofList [.scalar .Float32, .vec .Float32 2])
+private def sG : Ty := .struct (Tys.ofList [.scalar .Float32, .scalar .Float32])
+
+/-- **The collection is incomplete (negation witness).**  A global that is an *array* of structured buffers
+    is not looked at: the module is accepted although its element structure is 12 bytes under HLSL packing and
+    16 under Metal.  (Replayed on the real compiler by `C19.prog vk:np:0 {f f2} sbarr@0`; known finding
+    `accepted/site-sbarr`.) -/
+theorem buffer_arrays_not_validated :
+    checkLayout ⟨[⟨.array (.object "StructuredBuffer" (some ⟨0, sF⟩)), "g"⟩], []⟩ = .ok ∧
+    wf sF = true ∧ ¬ Agree sF := by
+  decide
+
+/-- non-vacuity: the same structure behind a plain structured buffer, behind modifiers, or as the argument of a
+    typed store is rejected with the true sizes; an agreeing structure at every site is accepted; the first
+    collected failure is the one reported (globals before functions), a type id is looked at once -/
+example :
+    checkLayout ⟨[⟨.object "StructuredBuffer" (some ⟨0, sF⟩), "g"⟩], []⟩ = .mismatch 0 ⟨12, 4⟩ ⟨16, 8⟩ ∧
+    checkLayout ⟨[⟨.modifier (.object "RWStructuredBuffer" (some ⟨0, sF⟩)), "g"⟩], []⟩ = .mismatch 0 ⟨12, 4⟩ ⟨16, 8⟩ ∧
+    checkLayout ⟨[], [⟨some "RWBufferAddressStore", some [.type ⟨0, sF⟩]⟩]⟩ = .mismatch 0 ⟨12, 4⟩ ⟨16, 8⟩ ∧
+    checkLayout ⟨[⟨.object "StructuredBuffer" (some ⟨1, sG⟩), "g"⟩, ⟨.object "ConstantBuffer" (some ⟨0, sF⟩), "c"⟩],
+      [⟨some "ByteAddressBufferLoadT", some [.type ⟨1, sG⟩]⟩, ⟨some "ByteAddressBufferLoad", none⟩]⟩ = .ok ∧
+    checkLayout ⟨[⟨.object "StructuredBuffer" (some ⟨1, sG⟩), "g"⟩],
+      [⟨some "ByteAddressBufferLoadT", some [.type ⟨1, sG⟩]⟩, ⟨some "BufferAddressLoad", some [.type ⟨0, sF⟩]⟩]⟩
+        = .mismatch 1 ⟨12, 4⟩ ⟨16, 8⟩ := by
+  decide
+
+end collection
 
 /-! ### non-vacuity and regression examples -/
 private def f : Ty := .scalar .Float32
